@@ -140,9 +140,11 @@ class Lock:
 
 
 def regenerate_tables():
-    """-> (ok, message)"""
+    """-> (ok, message, fallbacks): `fallbacks` lists literal tables that could no longer be extracted from the
+    source (renamed / computed): the pinned literal is used for them and the tie is the correspondence alone"""
     rc, out = sh([sys.executable, os.path.join(VERIF, "harness", "gen_tables.py")])
-    return rc == 0, out.strip()
+    fb = [l[len("FALLBACK "):] for l in out.split("\n") if l.startswith("FALLBACK ")]
+    return rc == 0, out.strip(), fb
 
 
 def lake_build(targets):
